@@ -34,6 +34,7 @@ pub fn fresh_shadow(cfg: &Config) -> ModelState {
         outq: vec![false; cfg.controllers.max(1) as usize],
         plain488: cfg.plain488,
         no_mav: cfg.no_mav,
+        prefill: Vec::new(),
     }
 }
 
@@ -42,12 +43,22 @@ pub fn gen_hw(rng: &mut Rng, reg: Reg, cur: u16) -> HwOp {
     match rng.below(6) {
         0 => HwOp {
             reg,
-            value: if rng.chance(1, 2) { 1 << rng.below(16) } else { rng.next_u64() as u16 & rng.next_u64() as u16 },
+            value: match rng.below(3) {
+                0 => 1 << rng.below(16),
+                // several bits, some of them already set
+                1 => (cur & rng.next_u64() as u16) | (1 << rng.below(15)) | (1 << rng.below(15)),
+                _ => rng.next_u64() as u16 & rng.next_u64() as u16,
+            },
             op: HwKind::SetBits,
         },
         1 => HwOp {
             reg,
-            value: if rng.chance(1, 2) { 1 << rng.below(16) } else { rng.next_u64() as u16 & rng.next_u64() as u16 },
+            value: match rng.below(3) {
+                0 => 1 << rng.below(16),
+                // several bits, some of them already clear
+                1 => (cur & rng.next_u64() as u16) | (1 << rng.below(15)),
+                _ => rng.next_u64() as u16 & rng.next_u64() as u16,
+            },
             op: HwKind::ClearBits,
         },
         _ => HwOp {
